@@ -22,10 +22,15 @@ theorem noWatch_spec {s : Str} (h : noWatch s = true) : watchL.isPrefixOf s = fa
 def Reparses (r : Parsed) : Prop :=
   ∃ u, r.url = .ok (some u) ∧ ∀ rel, parse_facebook_url u rel = .ok (some r)
 
-theorem joinBase_slashed (s : Str) (ss : List Str) (hok : ∀ x ∈ s :: ss, segOk x = true) :
+theorem joinBase_slashed (s : Str) (ss : List Str) (hok : ∀ x ∈ s :: ss, segOk x = true)
+    (hsemi : lastSemiOk ((s :: ss).getLast (List.cons_ne_nil _ _)) = true) :
     joinBase (slashed (s :: ss)) = .ok (some (BASE ++ slashed (s :: ss))) := by
   unfold joinBase
-  rw [urljoin_base_slashed s ss hok]
+  rw [urljoin_base_slashed s ss hok hsemi]
+
+theorem lastOk_spec {s : Str} (h : lastOk s = true) : segOk s = true ∧ lastSemiOk s = true := by
+  unfold lastOk at h
+  simpa using h
 
 theorem wfacts :
     watchL.isPrefixOf groupsL = false ∧ watchL.isPrefixOf postsL = false ∧ watchL.isPrefixOf videosL = false ∧
@@ -36,11 +41,12 @@ theorem wfacts :
 theorem reparse_handle (h : Str) (hh : handleOk h = true) : Reparses (.handle h) := by
   unfold handleOk at hh
   simp only [Bool.and_eq_true, Bool.not_eq_true'] at hh
-  obtain ⟨⟨⟨hseg, hw⟩, hpe⟩, hphp⟩ := hh
+  obtain ⟨⟨⟨hlast, hw⟩, hpe⟩, hphp⟩ := hh
+  obtain ⟨hseg, hsemi⟩ := lastOk_spec hlast
   have hok : ∀ x ∈ [h], segOk x = true := by simpa using hseg
   refine ⟨BASE ++ slashed [h], ?_, ?_⟩
   · have : (Parsed.handle h).url = joinBase (slashed [h]) := by simp [Parsed.url, slashed]
-    rw [this, joinBase_slashed h [] hok]
+    rw [this, joinBase_slashed h [] hok hsemi]
   · intro rel
     rw [parse_canonical_slashed h [] rel hok, parseSplit_slashed _ _ _ h [] hok]
     have hw' := noWatch_spec hw
@@ -66,7 +72,8 @@ theorem reparse_video_parent (pid id : Str) (hh : videoParentOk pid id = true) :
     Reparses (.video id (some pid)) := by
   unfold videoParentOk at hh
   simp only [Bool.and_eq_true] at hh
-  obtain ⟨⟨⟨hp, hi⟩, hwp⟩, hwi⟩ := hh
+  obtain ⟨⟨⟨hp, hil⟩, hwp⟩, hwi⟩ := hh
+  obtain ⟨hi, hsemi⟩ := lastOk_spec hil
   have hok : ∀ x ∈ [pid, videosL, id], segOk x = true := by
     intro x hx
     simp only [List.mem_cons, List.not_mem_nil, or_false] at hx
@@ -77,7 +84,7 @@ theorem reparse_video_parent (pid id : Str) (hh : videoParentOk pid id = true) :
   refine ⟨BASE ++ slashed [pid, videosL, id], ?_, ?_⟩
   · have : (Parsed.video id (some pid)).url = joinBase (slashed [pid, videosL, id]) := by
       simp only [Parsed.url]; rw [lit_videos_mid]; simp [slashed]
-    rw [this, joinBase_slashed _ _ hok]
+    rw [this, joinBase_slashed _ _ hok hsemi]
   · intro rel
     rw [parse_canonical_slashed _ _ rel hok, parseSplit_slashed _ _ _ _ _ hok]
     simp only [List.any_cons, List.any_nil, noWatch_spec hwp, noWatch_spec hwi, wfacts.2.2.1, Bool.or_false,
@@ -94,7 +101,8 @@ theorem reparse_post_parent_handle (ph id : Str) (hh : postHandleOk ph id = true
   unfold postHandleOk at hh
   rw [lit_videos_word, lit_photos_word, lit_groups_word] at hh
   simp only [Bool.and_eq_true, Bool.not_eq_true', decide_eq_true_eq] at hh
-  obtain ⟨⟨⟨⟨⟨⟨⟨hp, hi⟩, hwp⟩, hwi⟩, hid⟩, hv⟩, hph⟩, hg⟩ := hh
+  obtain ⟨⟨⟨⟨⟨⟨⟨hp, hil⟩, hwp⟩, hwi⟩, hid⟩, hv⟩, hph⟩, hg⟩ := hh
+  obtain ⟨hi, hsemi⟩ := lastOk_spec hil
   have hok : ∀ x ∈ [ph, postsL, id], segOk x = true := by
     intro x hx
     simp only [List.mem_cons, List.not_mem_nil, or_false] at hx
@@ -105,7 +113,7 @@ theorem reparse_post_parent_handle (ph id : Str) (hh : postHandleOk ph id = true
   refine ⟨BASE ++ slashed [ph, postsL, id], ?_, ?_⟩
   · have : (Parsed.post id none (some ph) none none).url = joinBase (slashed [ph, postsL, id]) := by
       simp only [Parsed.url]; rw [lit_posts_mid]; simp [slashed]
-    rw [this, joinBase_slashed _ _ hok]
+    rw [this, joinBase_slashed _ _ hok hsemi]
   · intro rel
     rw [parse_canonical_slashed _ _ rel hok, parseSplit_slashed _ _ _ _ _ hok]
     have e1 : decide (postsL = videosL) = false := by decide
@@ -126,7 +134,8 @@ theorem reparse_post_group (g id : Str) (hh : postGroupOk g id = true) :
   unfold postGroupOk at hh
   rw [lit_videos_word, lit_photos_word] at hh
   simp only [Bool.and_eq_true, decide_eq_true_eq] at hh
-  obtain ⟨⟨⟨⟨⟨hg, hi⟩, hwg⟩, hwi⟩, hv⟩, hph⟩ := hh
+  obtain ⟨⟨⟨⟨⟨hg, hil⟩, hwg⟩, hwi⟩, hv⟩, hph⟩ := hh
+  obtain ⟨hi, hsemi⟩ := lastOk_spec hil
   have hok : ∀ x ∈ [groupsL, g, permalinkL, id], segOk x = true := by
     intro x hx
     simp only [List.mem_cons, List.not_mem_nil, or_false] at hx
@@ -142,7 +151,7 @@ theorem reparse_post_group (g id : Str) (hh : postGroupOk g id = true) :
       rcases hr with hr | hr
       · rw [hr]; simp only [Parsed.url]; rw [lit_groups_abs, lit_permalink_mid]; simp [slashed]
       · rw [hr]; simp only [Parsed.url]; rw [lit_groups_abs, lit_permalink_mid]; simp [slashed]
-    rw [this _ (by split <;> simp), joinBase_slashed _ _ hok]
+    rw [this _ (by split <;> simp), joinBase_slashed _ _ hok hsemi]
   · intro rel
     rw [parse_canonical_slashed _ _ rel hok, parseSplit_slashed _ _ _ _ _ hok]
     have e1 : decide (groupsL = videosL) = false := by decide
@@ -169,21 +178,22 @@ theorem reparse_post_group (g id : Str) (hh : postGroupOk g id = true) :
 
 /-! ## `FacebookGroup`: `/groups/<group>` -/
 
-theorem joinBase_groups (g : Str) (hg : segOk g = true) :
+theorem joinBase_groups (g : Str) (hg : segOk g = true) (hsemi : lastSemiOk g = true) :
     joinBase (lit "groups/" ++ g) = .ok (some (BASE ++ slashed [groupsL, g])) := by
   have hs := segOk_spec hg
   unfold joinBase
   rw [lit_groups_rel]
   have e : groupsL ++ ['/'] ++ g = groupsL ++ '/' :: g := by simp
-  rw [e, urljoin_base_groups g (fun c hc => segChar_pathChar (hs.2.1 c hc)) (segOk_not_mem_semi hg)
-    (segOk_not_mem_slash hg) hs.2.2.1]
+  rw [e, urljoin_base_groups g (fun c hc => segChar_pathChar (hs.2.1 c hc)) hsemi
+    (segOk_not_mem_slash hg)]
   simp [slashed]
 
 theorem reparse_group (g : Str) (hh : groupOk g = true) :
     Reparses (if is_facebook_id g then .group (some g) none else .group none (some g)) := by
   unfold groupOk at hh
   simp only [Bool.and_eq_true] at hh
-  obtain ⟨hg, hwg⟩ := hh
+  obtain ⟨hgl, hwg⟩ := hh
+  obtain ⟨hg, hsemi⟩ := lastOk_spec hgl
   have hok : ∀ x ∈ [groupsL, g], segOk x = true := by
     intro x hx
     simp only [List.mem_cons, List.not_mem_nil, or_false] at hx
@@ -197,7 +207,7 @@ theorem reparse_group (g : Str) (hh : groupOk g = true) :
       rcases hr with hr | hr
       · rw [hr]; simp [Parsed.url, fmtOpt]
       · rw [hr]; simp [Parsed.url]
-    rw [this _ (by split <;> simp), joinBase_groups g hg]
+    rw [this _ (by split <;> simp), joinBase_groups g hg hsemi]
   · intro rel
     rw [parse_canonical_slashed _ _ rel hok, parseSplit_slashed _ _ _ _ _ hok]
     have e1 : decide (groupsL = videosL) = false := by decide
@@ -250,7 +260,8 @@ theorem reparse_photo_path (p aid id : Str) (hh : photoPathOk p aid id = true) :
   unfold photoPathOk at hh
   rw [lit_videos_word] at hh
   simp only [Bool.and_eq_true, decide_eq_true_eq, Bool.not_eq_true'] at hh
-  obtain ⟨⟨⟨⟨⟨⟨⟨hp, hi⟩, hane⟩, ha⟩, hal⟩, hwp⟩, hwi⟩, hv⟩ := hh
+  obtain ⟨⟨⟨⟨⟨⟨⟨hp, hil⟩, hane⟩, ha⟩, hal⟩, hwp⟩, hwi⟩, hv⟩ := hh
+  obtain ⟨hi, hsemi⟩ := lastOk_spec hil
   have hok : ∀ x ∈ [p, photosL, aDot ++ aid, id], segOk x = true := by
     intro x hx
     simp only [List.mem_cons, List.not_mem_nil, or_false] at hx
@@ -277,7 +288,7 @@ theorem reparse_photo_path (p aid id : Str) (hh : photoPathOk p aid id = true) :
         simp only [Parsed.url, hfn, htr, Bool.not_false, Bool.true_and, Bool.false_eq_true, if_false, if_true,
           fmtOpt, Option.getD_some]
         rw [lit_photos_a]; simp [slashed]
-    rw [this _ (by split <;> simp), joinBase_slashed _ _ hok]
+    rw [this _ (by split <;> simp), joinBase_slashed _ _ hok hsemi]
   · intro rel
     rw [parse_canonical_slashed _ _ rel hok, parseSplit_slashed _ _ _ _ _ hok]
     have w1 : watchL.isPrefixOf (aDot ++ aid) = false := by simp [watchL, aDot, List.isPrefixOf]
@@ -363,9 +374,11 @@ theorem reparse_post_parent_id (pid id : Str) (hp : qvalOk pid = true) (hi : qva
 def photoItems (id : Str) (gid aid : Option Str) : List (Str × Str) :=
   (fbidK, id) :: ((gid.map fun g => (setK, gDot ++ g)).toList ++ (aid.map fun a => (setK, aDot ++ a)).toList)
 
-theorem qvalOk_prefixed (pre s : Str) (hpre : pre.all qvalChar = true) (h : qvalOk s = true) :
+theorem qvalOk_prefixed (pre s : Str) (hpre : pre.all qvalChar = true) (hpct : '%' ∉ pre) (h : qvalOk s = true) :
     qvalOk (pre ++ s) = true := by
   have hs := qvalOk_spec h
+  have hesc : hasEscape (pre ++ s) = false := by
+    rw [hasEscape_append_of_no_pct pre s hpct]; exact qvalOk_noEscape h
   unfold qvalOk
   have : (pre ++ s).isEmpty = false := by
     cases pre with
@@ -373,7 +386,7 @@ theorem qvalOk_prefixed (pre s : Str) (hpre : pre.all qvalChar = true) (h : qval
       | nil => exact absurd hx hs.1
       | cons c cs => rfl
     | cons c cs => rfl
-  simp only [this, Bool.not_false, Bool.true_and, List.all_append, hpre]
+  simp only [this, Bool.not_false, Bool.true_and, List.all_append, hpre, hesc, Bool.and_true]
   exact List.all_eq_true.mpr hs.2
 
 theorem truthy_of_qvalOk {s : Str} (h : qvalOk s = true) : truthy (some s) = true := by
@@ -411,10 +424,10 @@ theorem reparse_photo_query (id : Str) (gid aid : Option Str) (hh : photoQueryOk
     · rw [hkv]; simp [itemOk, qkeyOk_keys.2.2.2.1, hi]
     · rw [← hkv]
       rw [hg'] at hg
-      simp [itemOk, qkeyOk_keys.2.2.2.2, qvalOk_prefixed gDot g (by decide) hg]
+      simp [itemOk, qkeyOk_keys.2.2.2.2, qvalOk_prefixed gDot g (by decide) (by decide) hg]
     · rw [← hkv]
       rw [ha'] at ha
-      simp [itemOk, qkeyOk_keys.2.2.2.2, qvalOk_prefixed aDot a (by decide) ha]
+      simp [itemOk, qkeyOk_keys.2.2.2.2, qvalOk_prefixed aDot a (by decide) (by decide) ha]
   have hne : photoItems id gid aid ≠ [] := by simp [photoItems]
   refine ⟨BASE ++ ('/' :: photoPhpL ++ '?' :: qsWire (photoItems id gid aid)), ?_, ?_⟩
   · have : (Parsed.photo id gid none none aid).url =
